@@ -50,7 +50,17 @@ def run(ctx):
             m = re.match(r"(\w+) scenario (\d+)", want)
             if m:
                 env["VERIF_C09_ONLY"] = "%s:%s" % (m.group(1), m.group(2))
-        lines, rc, err = ctx.run_driver(drv, ["all"], env=env, timeout=(900 if ctx.tier == "thorough" else 300))
+        import subprocess
+        try:
+            lines, rc, err = ctx.run_driver(drv, ["all"], env=env, timeout=(1500 if ctx.tier == "thorough" else 600))
+        except subprocess.TimeoutExpired as te:
+            # the driver's own watchdog ends a blocked scenario after 60 s; getting here means it kept producing lines, slowly
+            def txt(b): return b.decode("utf-8", "replace") if isinstance(b, (bytes, bytearray)) else (b or "")
+            lines, rc, err = txt(te.stdout).split("\n"), 0, txt(te.stderr)
+            marks = re.findall(r"^scenario (\w+) (\d+)(?: took (\S+))?$", err, re.M)
+            slow = re.findall(r"^slow scenario .*$", err, re.M)
+            broken.append({"kind": "obligation", "name": "driver c09 did not finish within its time limit",
+                           "detail": "scenarios started: %d, last: %s; %s" % (len(marks), " ".join(marks[-1][:2]) if marks else "-", "; ".join(slow[-8:]))})
         crashed = None
         if rc != 0:
             last = re.findall(r"^scenario (\w+) (\d+)$", err, re.M)
